@@ -90,10 +90,131 @@ def world_lit(vocab, case_lits):
     return "{| w_vocab := %s; w_cases := %s |}" % (cvocab(vocab), clist(case_lits))
 
 
+# ------------------------------------------------------------------------------------------------ names
+# Names that a tolerant comparison would confuse: every name the problem parser COMPARES (the domain name) or LOOKS UP
+# (type names in :objects, object / constant names as arguments, predicate and function names) is replaced by near
+# misses of itself; and half of the generated domains use names that contain '-' and '_' and share prefixes, so that
+# a near miss of one declared name is often ANOTHER declared name (of a different type / signature).
+DOMAIN_NAMES = ["dom", "fuel-transport", "fuel_transport", "a-b_c", "a_b-c", "d-1", "d_1", "blocks-world_v2", "x",
+                "dom-2", "dom_2", "dom2", "multi_agent-rovers"]
+NAME_STEMS = {"type": ["loc", "veh", "place"], "const": ["depot", "hub"], "pred": ["at", "has", "link"],
+              "func": ["fuel", "dist", "cost"], "object": ["tr", "ob", "pkg"]}
+NAME_PARTS = ["a", "b", "lvl", "x1", "2", "to"]
+
+
+def confusable_names(rng, stems, n):
+    """n distinct names over one or two stems that share prefixes and differ in their separators / by one part:
+    s, s-u, s_u, su, s-u-v, s_u_v, s-u_v, s_u-v, s-uv, s-u-, ..."""
+    out = []
+    for s in rng.sample(stems, min(2, len(stems))):
+        u, v = rng.sample(NAME_PARTS, 2)
+        out += [s, s + "-" + u, s + "_" + u, s + u, s + "-" + u + "-" + v, s + "_" + u + "_" + v, s + "-" + u + "_" + v,
+                s + "_" + u + "-" + v, s + "-" + u + v, s + "_" + u + v, s + "-" + v, s + "_" + v]
+    out = sorted(set(out))
+    rng.shuffle(out)
+    assert len(out) >= n, (stems, n)
+    return out[:n]
+
+
+def near_misses(rng, name):
+    """[(variation kind, variant)]: lower-case names different from [name] that differ from it the way a forgiving
+    comparison might overlook.  One variant per kind and position class; positions are drawn from rng."""
+    out, seen = [], {name}
+
+    def add(kind, v):
+        if v and v not in seen and v != "-":
+            seen.add(v)
+            out.append((kind, v))
+    seps = [i for i, ch in enumerate(name) if ch in "-_"]
+    swap = {"-": "_", "_": "-"}
+    if seps:
+        i = rng.choice(seps)
+        add("separator-swapped-one", name[:i] + swap[name[i]] + name[i + 1:])
+        add("separator-swapped-all", "".join(swap.get(ch, ch) for ch in name))
+        i = rng.choice(seps)
+        add("separator-dropped", name[:i] + name[i + 1:])
+        add("separator-doubled", name[:i] + name[i] + name[i:])
+        add("prefix-up-to-separator", name[:seps[-1]])
+        add("first-part-dropped", name[seps[0] + 1:])
+    inner = [i for i in range(1, len(name)) if name[i] not in "-_" and name[i - 1] not in "-_"]
+    if inner:
+        i = rng.choice(inner)
+        add("separator-inserted", name[:i] + rng.choice("-_") + name[i:])
+    add("prefix", name[:-1])
+    add("extension-letter", name + rng.choice(["x", "s", "1", name[-1]]))
+    add("extension-part", name + rng.choice("-_") + rng.choice(["x", "1", "b"]))
+    i = rng.randrange(len(name))
+    add("char-doubled", name[:i] + name[i] + name[i:])
+    if len(name) > 1:
+        i = rng.randrange(len(name) - 1)
+        add("char-dropped", name[:i] + name[i + 1:])
+    add("leading-separator", rng.choice("-_") + name)
+    add("trailing-separator", name + rng.choice("-_"))
+    return out
+
+
+def case_variants(rng, name):
+    """[(kind, variant)]: spellings of [name] in another letter case (the tokenizer lower-cases: they ARE the name)"""
+    out, seen = [], {name}
+    letters = [i for i, ch in enumerate(name) if ch.isalpha()]
+    cands = [("upper", name.upper()), ("capitalised", name.capitalize())]
+    if letters:
+        i = rng.choice(letters)
+        cands.append(("one-letter", name[:i] + name[i].upper() + name[i + 1:]))
+    for k, v in cands:
+        if v not in seen and v.lower() == name:
+            seen.add(v)
+            out.append((k, v))
+    return out
+
+
+def rename_world(w, m):
+    """the world with every type / constant / predicate / function name replaced according to m (token-wise; the
+    generated names of the namespaces are pairwise distinct)"""
+    def r(x):
+        return m.get(x, x)
+
+    def rt(t):
+        return r(t) if isinstance(t, str) else [rt(x) for x in t]
+    w2 = G.World()
+    w2.types = {r(c): r(p) for c, p in w.types.items()}
+    w2.type_lines = [([r(c) for c in cs], (r(p) if p is not None else None)) for cs, p in w.type_lines]
+    w2.consts = [(r(n), r(t)) for n, t in w.consts]
+    w2.preds = [(r(n), [(p, rt(t)) for p, t in ps]) for n, ps in w.preds]
+    w2.funcs = [(r(n), [(p, rt(t)) for p, t in ps]) for n, ps in w.funcs]
+    w2.actions = []
+    for a in w.actions:
+        a2 = dict(a)
+        a2["params"] = [(p, rt(t)) for p, t in a["params"]]
+        a2["pre"], a2["eff"] = rt(a["pre"]), rt(a["eff"])
+        w2.actions.append(a2)
+    w2.oof, w2.oof_kind, w2.features = w.oof, w.oof_kind, set(w.features)
+    return w2
+
+
+def confuse_world(rng, w):
+    """gives the world names with '-' and '_' that share prefixes; objects of its problems are named through w.objmap"""
+    m = {}
+    for ns, names in (("type", list(w.types)), ("const", [n for n, _ in w.consts]), ("pred", [n for n, _ in w.preds]),
+                      ("func", [n for n, _ in w.funcs])):
+        for old, new in zip(names, confusable_names(rng, NAME_STEMS[ns], len(names))):
+            m[old] = new
+    w2 = rename_world(w, m)
+    w2.objmap = dict(zip(["o%d" % i for i in range(8)], confusable_names(rng, NAME_STEMS["object"], 8)))
+    w2.dname = rng.choice([n for n in DOMAIN_NAMES if "-" in n or "_" in n])
+    w2.confusable = True
+    return w2
+
+
+def domain_name(w):
+    return getattr(w, "dname", "dom")
+
+
 # ------------------------------------------------------------------------------------------------ generation
-def gen_domain(rng):
+def gen_domain(rng, confusable=None):
     """a pddlgen world with some wider signatures (binary / ternary functions and a ternary predicate), so that
-    repeated arguments and mixed-type signatures occur"""
+    repeated arguments and mixed-type signatures occur; confusable (default: every second world): its names contain
+    '-' and '_' and share prefixes, and its domain name is one of DOMAIN_NAMES"""
     w = G.gen_world(rng, max_actions=1, max_types=4)
     ts = w.all_types()
     for i in range(rng.randint(1, 2)):
@@ -103,6 +224,12 @@ def gen_domain(rng):
         w.preds.append(("r3", [("?c%d" % k, rng.choice(ts)) for k in range(3)]))
     if rng.random() < 0.5 and not any(len(ps) == 0 for _, ps in w.funcs):
         w.funcs.append(("h", []))
+    if confusable is None:
+        confusable = rng.random() < 0.5
+    if confusable:
+        return confuse_world(rng, w)
+    if rng.random() < 0.3:
+        w.dname = rng.choice(DOMAIN_NAMES)
     return w
 
 
@@ -145,7 +272,8 @@ def gen_nexp(rng, w, objs, depth, allow_repeat):
 
 def gen_problem(rng, w, d07=False):
     """a valid problem description; d07: fluents may have repeated arguments (finding class D07)"""
-    objs = G.gen_objects(rng, w, n=rng.randint(1, 4))
+    om = getattr(w, "objmap", {})
+    objs = [(om.get(n, n), t) for n, t in G.gen_objects(rng, w, n=rng.randint(1, 4))]
     style = rng.choice(["typed", "typed", "grouped", "untyped-tail", "private", "mixed"])
     shadow = None
     if w.consts and rng.random() < 0.15:
@@ -196,7 +324,7 @@ def gen_problem(rng, w, d07=False):
         cmp_ = rng.choice(CMPS)
         goal.append(["num", [cmp_, fl, rhs] if rng.random() < 0.75 or not isinstance(rhs, list) else [cmp_, rhs, fl]])
     rng.shuffle(goal)
-    return {"name": "prob%d" % rng.randint(0, 99), "domain": "dom", "objects": declared, "arg_objects": objs, "style": style,
+    return {"name": "prob%d" % rng.randint(0, 99), "domain": domain_name(w), "objects": declared, "arg_objects": objs, "style": style,
             "init": init, "goal": goal, "shadow": bool(shadow)}
 
 
@@ -334,7 +462,7 @@ def corruptions(rng, w, desc):
     def add(kind, d, klass=None):
         out.append((kind, d, klass))
     d = copy_desc(desc)
-    d["domain"] = "dom2"
+    d["domain"] = "zz-other-domain"
     add("domain-name", d)
     if desc["objects"]:
         d = copy_desc(desc)
@@ -406,6 +534,96 @@ def corruptions(rng, w, desc):
     return out
 
 
+# ------------------------------------------------------------------------------------------------ near misses
+NUMERIC_OPERATORS = ["+", "-", "*", "/"]
+
+
+def name_sites(w, desc):
+    """every place where the problem text uses a name that the parser compares or looks up:
+    (site kind, the name, the names that are declared there, setter(description copy, new name), names to avoid,
+    finding class a not-ok verdict would belong to)"""
+    sites = []
+    goal_class = "D19d" if any(g[0] == "num" for g in desc["goal"]) else None
+
+    def setter(*path):
+        def put(d, v):
+            t = d
+            for k in path[:-1]:
+                t = t[k]
+            t[path[-1]] = v
+        return put
+    sites.append(("domain", desc["domain"], {domain_name(w)}, setter("domain"), (), None))
+    types = set(w.all_types())
+    for i, (_, t) in enumerate(desc["objects"]):
+        def put_type(d, v, i=i):
+            d["objects"][i][1] = v
+            d["style"] = "typed"
+        sites.append(("object-type", t, types, put_type, (), goal_class))
+    names = {n for n, _ in desc["objects"]} | {n for n, _ in w.consts}
+    preds, funcs = {n for n, _ in w.preds}, {n for n, _ in w.funcs}
+    for idx, it in enumerate(desc["init"]):
+        if it[0] == "fact":
+            sites.append(("fact-name", it[1], preds | {"="}, setter("init", idx, 1), (), None))
+            for j, a in enumerate(it[2]):
+                sites.append(("fact-object", a, names, setter("init", idx, 2, j), (), None))
+        else:
+            sites.append(("fluent-name", it[1], funcs, setter("init", idx, 1), (), None))
+            for j, a in enumerate(it[2]):
+                sites.append(("fluent-object", a, names, setter("init", idx, 2, j), tuple(it[2]), None))
+    for idx, g in enumerate(desc["goal"]):
+        if g[0] == "lit":
+            sites.append(("lit-name", g[1], preds | set(CMPS), setter("goal", idx, 1), (), None))
+            for j, a in enumerate(g[2]):
+                sites.append(("lit-object", a, names, setter("goal", idx, 2, j), (), None))
+        else:
+            for path in fluent_leaves(g[1]):
+                leaf = tree_get(g[1], path)
+                sites.append(("goalnum-name", leaf[0], funcs | set(NUMERIC_OPERATORS) | set(CMPS),
+                              setter("goal", idx, 1, *path, 0), (), "D19d"))
+                for j in range(1, len(leaf)):
+                    sites.append(("goalnum-object", leaf[j], names, setter("goal", idx, 1, *path, j), tuple(leaf[1:]), "D19d"))
+    return sites
+
+
+def near_miss_cases(rng, w, desc, n_other, n_positive):
+    """near misses of every name the text uses.  A variant that is not declared in its place must be REJECTED; a variant
+    that happens to be another declared name is judged by the spec alone (expect None); a spelling in another letter
+    case must be ACCEPTED with the same result (expected: what the unchanged description says).
+    All variants of the domain name are kept; the other sites are sampled (stratified by site kind x variation)."""
+    neg, pos = {}, []
+    for site, name, declared, put, avoid, klass in name_sites(w, desc):
+        for vkind, v in near_misses(rng, name):
+            if v in avoid:
+                continue                                   # would repeat an argument of a fluent: class D07
+            d = copy_desc(desc)
+            put(d, v)
+            collides = v in declared
+            neg.setdefault((site, vkind), []).append(
+                ("nearmiss-%s-%s-%s" % (site, vkind, "is-another-declared-name" if collides else "undeclared"), d,
+                 None if collides else "raised", klass))
+        for vkind, v in case_variants(rng, name):
+            d = copy_desc(desc)
+            put(d, v)
+            pos.append(("casevariant-%s-%s" % (site, vkind), d, "same", None))
+    out = []
+    for key in [k for k in neg if k[0] == "domain"]:
+        out += neg.pop(key)
+    keys = list(neg)
+    rng.shuffle(keys)
+    while keys and n_other > 0:
+        for k in list(keys):
+            if n_other <= 0:
+                break
+            out.append(neg[k].pop(rng.randrange(len(neg[k]))))
+            n_other -= 1
+            if not neg[k]:
+                keys.remove(k)
+    rng.shuffle(pos)
+    dom_pos = [c for c in pos if c[0].startswith("casevariant-domain-")][:1]
+    out += dom_pos + [c for c in pos if c not in dom_pos][:n_positive]
+    return out
+
+
 # ------------------------------------------------------------------------------------------------ the run
 def build_generated(rng, tier):
     """returns list of worlds: {domain_text, cases: [{text, expect, kind, klass, nontrivial, desc}]}"""
@@ -413,7 +631,7 @@ def build_generated(rng, tier):
     worlds = []
     for wi in range(n_worlds):
         w = gen_domain(rng)
-        dtext = G.render(w.domain_tree("dom"), rng, noise=False)
+        dtext = G.render(w.domain_tree(domain_name(w)), rng, noise=False)
         cases = []
         for pi in range(2 if tier == "quick" else 3):
             d07 = rng.random() < 0.3
@@ -437,6 +655,11 @@ def build_generated(rng, tier):
                 ctext = G.render(problem_tree(cd), rng, noise=False)
                 cases.append({"text": ctext, "expect": "raised", "kind": "corrupt-" + kind, "klass": klass,
                               "nontrivial": True, "desc": cd})
+            n_other, n_pos = (14, 3) if tier == "quick" else (60, 8)
+            for kind, cd, expect, klass in near_miss_cases(rng, w, desc, n_other, n_pos):
+                ctext = G.render(problem_tree(cd), rng, noise=False)
+                cases.append({"text": ctext, "expect": expected_dump(desc) if expect == "same" else expect, "kind": kind,
+                              "klass": klass, "nontrivial": True, "desc": cd})
         cases += boundary_cases(rng, w, 10 if tier == "quick" else 40)
         worlds.append({"domain_text": dtext, "cases": cases, "source": "generated"})
     return worlds
@@ -462,7 +685,7 @@ def boundary_cases(rng, w, cap):
     out = []
     for kind, n, args, ok in items:
         in_goal = rng.random() < 0.35
-        desc = {"name": "bnd", "domain": "dom", "objects": objs, "style": "typed", "init": [], "goal": []}
+        desc = {"name": "bnd", "domain": domain_name(w), "objects": objs, "style": "typed", "init": [], "goal": []}
         if kind == "fact":
             if in_goal:
                 desc["goal"].append(["lit", n, args])
@@ -563,6 +786,40 @@ def hand_world():
     return {"domain_text": HAND_DOMAIN, "cases": cs, "source": "hand"}
 
 
+def sequence_world():
+    """one Domain object, three problems one after the other in one process: plain, one whose :init has a fluent with a
+    repeated argument in the MIDDLE of other fluents, plain again.  Every fluent of every problem (also those listed
+    before the repeated one, and those of the problem parsed afterwards) and every fluent leaf of the numeric goals is
+    dumped through state_representation, i.e. through signature AND repeating_variables: a repeated argument that
+    leaks from one PDDLFunction into another (shared repeating_variables dict) shows as foreign arguments."""
+    O = "o0 o1 - t1 o2 - t2 o3 o4"
+    objs = [["o0", "t1"], ["o1", "t1"], ["o2", "t2"], ["o3", "object"], ["o4", "object"]]
+
+    def P(name, init, goal):
+        return "(define (problem %s) (:domain dom) (:objects %s) (:init %s) (:goal (and %s)))" % (name, O, init, goal)
+
+    def plain(name, a, b, c):
+        return {"text": P(name, "(p0 o0) (= (f0 o0) %s) (= (f2 o0 o1) %s) (= (h) %s)" % (a, b, c), "(p0 o1) (>= (f0 o1) 1) (< (h) 3)"),
+                "expect": {"name": name, "objects": objs, "facts": [["p0", ["o0"]]],
+                           "fluents": [["f0", ["o0"], float(a).hex()], ["f2", ["o0", "o1"], float(b).hex()], ["h", [], float(c).hex()]],
+                           "goal": [["p0", ["o1"]]],
+                           "goal_num": [["op", ">=", ["fl", "f0", ["o1"]], ["num", (1.0).hex()]],
+                                        ["op", "<", ["fl", "h", []], ["num", (3.0).hex()]]]},
+                "kind": "sequence-plain-problem-" + name, "klass": None, "nontrivial": True}
+    mid = {"text": P("middle", "(= (f0 o0) 7) (= (f2 o0 o1) 4.5) (= (f2 o1 o1) 0) (= (g3 o3 o3 o4) 6) (= (f2 o1 o0) 4.5) (= (f0 o1) 2) (= (h) 0)",
+                     "(>= (f0 o0) 1) (< (+ (h) (f2 o0 o1)) 3)"),
+           "expect": {"name": "middle", "objects": objs, "facts": [],
+                      "fluents": [["f0", ["o0"], (7.0).hex()], ["f2", ["o0", "o1"], (4.5).hex()], ["f2", ["o1", "o1"], (0.0).hex()],
+                                  ["g3", ["o3", "o3", "o4"], (6.0).hex()], ["f2", ["o1", "o0"], (4.5).hex()],
+                                  ["f0", ["o1"], (2.0).hex()], ["h", [], (0.0).hex()]],
+                      "goal": [],
+                      "goal_num": [["op", ">=", ["fl", "f0", ["o0"]], ["num", (1.0).hex()]],
+                                   ["op", "<", ["op", "+", ["fl", "h", []], ["fl", "f2", ["o0", "o1"]]], ["num", (3.0).hex()]]]},
+           "kind": "sequence-repeated-argument-fluent-in-the-middle", "klass": "D07", "nontrivial": True}
+    return {"domain_text": HAND_DOMAIN, "cases": [plain("before", "1e1", "-2", "0.5"), mid, plain("after", "3", "0.25", "-1")],
+            "source": "hand"}
+
+
 def finding_worlds():
     out = []
     for f in load_findings(PROP):
@@ -638,13 +895,16 @@ def run(args):
     n_fixture_total = n_fixture_skipped = 0
     if args.replay:
         data = json.load(open(args.replay))
-        worlds = [data["input"]["world"]]
+        worlds = [dict(data["input"]["world"])]
+        before = worlds[0].pop("parsed_before_in_the_same_process", [])
+        worlds[0]["cases"] = [{"text": t, "expect": None, "kind": "parsed-before", "klass": k, "nontrivial": False}
+                              for t, k in before] + worlds[0]["cases"]
     else:
-        worlds = finding_worlds() + [hand_world()] + build_generated(rng, args.tier)
+        worlds = finding_worlds() + [sequence_world(), hand_world()] + build_generated(rng, args.tier)
         fw, n_fixture_total, n_fixture_skipped = fixture_worlds(args.tier)
         worlds += fw
     results = run_worlds(worlds, hashseed=args.seed % 7)
-    cases, lits, units = [], [], []
+    cases, lits, units, origin = [], [], [], []
     dist = {}
     raised_classes, sizes = {}, {"objects": 0, "facts": 0, "fluents": 0, "goal_literals": 0, "goal_numeric": 0,
                                  "problems_with_repeated_fluent_argument": 0}
@@ -670,6 +930,7 @@ def run(args):
                 sizes["problems_with_repeated_fluent_argument"] += 1
             single = dict(w)
             single["cases"] = [c]
+            origin.append((w, len(clits) - 1))
             cases.append({"lit": world_lit(res["vocab"], [clits[-1]]),
                           "input": {"world": single, "implementation": {k: v for k, v in r.items() if k != "text"}},
                           "nontrivial": c["nontrivial"], "witness_of": c.get("witness_of"), "klass": c.get("klass")})
@@ -687,6 +948,30 @@ def run(args):
             units.append(len(piece))
     verdicts, info = run_case_shards(PROP, CORR, lits, shard_size=6, units=units, max_bytes=110_000, header_extra=HEADER)
     decide(rep, PROP, CORR, cases, verdicts, info, explain_expr="explain %s", header_extra=HEADER)
+    # a case may depend on what the same process parsed before it (shared mutable state in the library): the replay
+    # file of a failing case also names the problems parsed before it against the same Domain object
+    for path, _ in rep.violations:
+        try:
+            data = json.load(open(path))
+            w, pos = origin[data["case_index"]]
+        except Exception:  # noqa
+            continue
+        if pos > 0 and "world" in data.get("input", {}):
+            data["input"]["world"]["parsed_before_in_the_same_process"] = [
+                [c.get("text") or open(c["path"]).read(), c.get("klass")] for c in w["cases"][:pos]]
+            open(path, "w").write(json.dumps(data, indent=1, default=str))
+    n_changed = 0
+    for w, res in zip(worlds, results):
+        if "domain_changed" in res and n_changed < 3:
+            n_changed += 1
+            k = res["domain_changed"]["after_problem_index"]
+            p = write_replay(PROP, "domain_changed_%d" % len(rep.violations), {
+                "kind": "input", "why": "parsing a problem changed how the Domain object presents its functions "
+                                        "(str / state_representation / repeating_variables of domain.functions)",
+                "input": {"world": {"domain_text": w.get("domain_text"), "domain_path": w.get("domain_path"), "source": w["source"],
+                                    "cases": [{kk: vv for kk, vv in c.items() if kk != "desc"} for c in w["cases"][:max(k, 0) + 1]]},
+                          "implementation": res["domain_changed"]}})
+            rep.violation(p, True)
     if domain_failures:
         p = write_replay(PROP, "domain_failures", {"kind": "correspondence", "why": "a domain of the run did not parse",
                                                    "domains": domain_failures[:5]})
